@@ -468,6 +468,10 @@ def run_check(prop, suites, tier, seed, level_note, trusted_extra=(), replay=Non
         else:
             corpus = load_corpus(prop, suite.name)
             cases = corpus + list(suite.gen(tier, rng))
+            if getattr(suite, "names_rate", 0) or getattr(suite, "past_rate", 0):
+                import gen as _gen
+                cases = _gen.decorate_cases(cases, rng, getattr(suite, "names_rate", 0), getattr(suite, "past_rate", 0))
+        all_cases = list(cases)
         nm_total = ns_total = ncases = ncrashed = 0
         escalated = 0
         disagreeing = []
@@ -489,6 +493,8 @@ def run_check(prop, suites, tier, seed, level_note, trusted_extra=(), replay=Non
             crashed = []
             for c in cases:
                 try:
+                    import gen as _gen
+                    _gen.CURRENT = c if isinstance(c, dict) else {}
                     o = suite.run(c)
                 except Exception as e:  # the runner itself must not raise: that is a harness/impl surprise
                     o = {"harness_exception": exc_class(e), "trace": traceback.format_exc()[-800:]}
@@ -541,6 +547,9 @@ def run_check(prop, suites, tier, seed, level_note, trusted_extra=(), replay=Non
                                  "wall_s": round(time.time() - ts, 1)}
         if escalated:
             per_suite[suite.name]["escalated_search_cases"] = escalated
+        if replay is None and (getattr(suite, "names_rate", 0) or getattr(suite, "past_rate", 0)):
+            per_suite[suite.name]["cases_with_hostile_names"] = sum(1 for c in all_cases if isinstance(c, dict) and "_names" in c)
+            per_suite[suite.name]["cases_with_a_past"] = sum(1 for c in all_cases if isinstance(c, dict) and "_past" in c)
         if acc:
             stats[suite.name] = acc
     # ---- verdict
